@@ -2,7 +2,7 @@ package models
 
 // govc-bounded: dir=models
 // govc-bounded: stands-in-for=C12 textual round trip and tag-order independence of key and hash (string rewriting and sorting of the whole key are outside what the SMT encoding decides)
-// govc-bounded: bound=every point with measurement from 3 names, 0..3 tags (quick) / 0..4 tags (thorough) with keys/values from 5 strings incl. escapes, one field from 9 values of all types; every rotation and the reversal of the tag list
+// govc-bounded: bound=every point with measurement from 3 names, 0..3 tags (quick) / 0..4 tags (thorough) with keys/values from 5 strings incl. escapes, one field from 9 values of all types; every rotation and the reversal of the tag list; plus every raw line of length 1..6 (thorough: 1..7) over the alphabet {m space TAB = , 1 " backslash}: whatever the parser accepts must survive the text and the binary round trip
 
 import (
 	"bytes"
@@ -115,5 +115,35 @@ func TestGovcBounded(t *testing.T) {
 		fmt.Println("GOVC-BOUNDED-FAIL", fail)
 		return
 	}
-	fmt.Printf("GOVC-BOUNDED-OK cases=%d max_tags=%d\n", cases, maxTags)
+	// raw lines: every string over a small alphabet that contains the separators, both kinds of blank the
+	// scanner skips (space, TAB), a quote and the escape character; whatever is accepted must round-trip
+	alphabet := []byte{'m', ' ', '\t', '=', ',', '1', '"', '\\'}
+	maxRaw := 6
+	if thorough {
+		maxRaw = 7
+	}
+	cur := []byte{}
+	var raw func() bool
+	raw = func() bool {
+		if len(cur) > 0 && !check(string(cur)) {
+			return false
+		}
+		if len(cur) == maxRaw {
+			return true
+		}
+		for _, c := range alphabet {
+			cur = append(cur, c)
+			ok := raw()
+			cur = cur[:len(cur)-1]
+			if !ok {
+				return false
+			}
+		}
+		return true
+	}
+	if !raw() {
+		fmt.Println("GOVC-BOUNDED-FAIL", fail)
+		return
+	}
+	fmt.Printf("GOVC-BOUNDED-OK cases=%d max_tags=%d max_raw=%d\n", cases, maxTags, maxRaw)
 }
